@@ -5,7 +5,7 @@ W=/tmp/mutrepo_$$
 git -C /repo worktree add -q --detach $W HEAD || exit 2
 ( cd $W && git apply "$D" ) || { echo "APPLY-FAILED $D"; git -C /repo worktree remove --force $W; exit 2; }
 for id in $P "$@"; do
-  out=$(/verif/tools/devcheck.sh $W $id --tier quick 2>&1); rc=$?
+  out=$(${VERIF_ROOT:-/verif}/tools/devcheck.sh $W $id --tier quick 2>&1); rc=$?
   echo "== $id rc=$rc :: $(echo "$out" | grep -c '^OBLIGATION-BROKEN') broken obligations; $(echo "$out" | grep '^VIOLATION' | head -2 | tr '\n' ' ')"
   echo "$out" | grep "^OBLIGATION-BROKEN\|violation:" | head -4 | cut -c1-220
 done
